@@ -126,8 +126,9 @@ HandleUltraZipBPP (rfbClient* client, int rx, int ry, int rw, int rh)
   int toRead=0;
   int inflateResult=0;
   unsigned char *ptr=NULL;
-  lzo_uint uncompressedBytes = ry + (rw * 65535);
+  lzo_uint uncompressedBytes = (lzo_uint)ry + ((lzo_uint)rw * 65535);
   unsigned int numCacheRects = rx;
+  unsigned char *end;
 
   if (!ReadFromRFBServer(client, (char *)&hdr, sz_rfbZlibHeader))
     return FALSE;
@@ -144,6 +145,11 @@ HandleUltraZipBPP (rfbClient* client, int rx, int ry, int rw, int rh)
   if (uncompressedBytes==0)
   {
       rfbClientLog("ultrazip error: rectangle has 0 uncomressed bytes (%dy + (%dw * 65535)) (%d rectangles)\n", ry, rw, rx); 
+      return FALSE;
+  }
+  if (uncompressedBytes > 0x7FFFFFFF - 504)
+  {
+      rfbClientLog("ultrazip error: decompressed size too large\n");
       return FALSE;
   }
 
@@ -194,11 +200,17 @@ HandleUltraZipBPP (rfbClient* client, int rx, int ry, int rw, int rh)
   
   /* Put the uncompressed contents of the update on the screen. */
   ptr = (unsigned char *)client->raw_buffer;
+  /* the table of sub-rectangles and their pixels must lie inside what was decompressed */
+  end = ptr + uncompressedBytes;
   for (i=0; i<numCacheRects; i++)
   {
     unsigned short sx, sy, sw, sh;
     unsigned int se;
 
+    if (end - ptr < 12) {
+        rfbClientLog("ultrazip error: sub-rectangle table exceeds the decompressed data\n");
+        return FALSE;
+    }
     memcpy((char *)&sx, ptr, 2); ptr += 2;
     memcpy((char *)&sy, ptr, 2); ptr += 2;
     memcpy((char *)&sw, ptr, 2); ptr += 2;
@@ -213,6 +225,10 @@ HandleUltraZipBPP (rfbClient* client, int rx, int ry, int rw, int rh)
 
     if (se == rfbEncodingRaw)
     {
+        if ((size_t)(end - ptr) < (size_t)sw * sh * (BPP / 8)) {
+            rfbClientLog("ultrazip error: sub-rectangle pixels exceed the decompressed data\n");
+            return FALSE;
+        }
         client->GotBitmap(client, (unsigned char *)ptr, sx, sy, sw, sh);
         ptr += ((sw * sh) * (BPP / 8));
     }
